@@ -41,12 +41,12 @@ Pairs(hp, alpha, n, rules) == TLCEval(
      WellFormed(c.a) /\ WellFormed(c.b)})
 AllHeadPairs == {<<x[1], x[2], y[1], y[2]>> : x \in Heads, y \in Heads}
 
-\* TLCEval: build the set explicitly once (a lazily represented union makes the enumeration quadratic)
-ScopeCases == IF Which # "scope" THEN {} ELSE TLCEval(
-              Pairs(HeadPairs, DeepAlpha, DeepMax, {"rfc3986"})
-              \cup Pairs(SameHeadPair, WideAlpha, WideMax, {"rfc3986", "absent"})
-              \cup Pairs(AllHeadPairs, DeepAlpha, HeadMax, Rules)
-              \cup Pairs(HeadPairs, DeepAlpha, StrMax, {"strcmp0"}))
+\* UNION + TLCEval: the set is built explicitly once (TLC's binary \cup of large sets is quadratic)
+ScopeCases == IF Which # "scope" THEN {} ELSE TLCEval(UNION {
+              Pairs(HeadPairs, DeepAlpha, DeepMax, {"rfc3986"}),
+              Pairs(SameHeadPair, WideAlpha, WideMax, {"rfc3986", "absent"}),
+              Pairs(AllHeadPairs, DeepAlpha, HeadMax, Rules),
+              Pairs(HeadPairs, DeepAlpha, StrMax, {"strcmp0"}) })
 
 ScopeInit == case \in ScopeCases
 Stay == UNCHANGED case
